@@ -71,4 +71,68 @@ theorem forLayerToCopy_mem (ctx : Ctx) (l : Layer) (h0 : hasL forloopKey (ctx.he
     simp [h0'] at h
 
 
+/-! ### association lists keyed by ids -/
+
+theorem alGet_alSet_same {β} (k : Nat) (v : β) (l : List (Nat × β)) : alGet k (alSet k v l) = some v := by
+  induction l with
+  | nil => simp [alSet, alGet]
+  | cons a rest ih =>
+    obtain ⟨ak, av⟩ := a
+    by_cases h : ak = k
+    · simp [alSet, alGet, h]
+    · simp [alSet, alGet, h, ih]
+
+theorem alGet_alSet_ne {β} (k k' : Nat) (v : β) (l : List (Nat × β)) (h : k' ≠ k) :
+    alGet k (alSet k' v l) = alGet k l := by
+  induction l with
+  | nil => simp [alSet, alGet, h]
+  | cons a rest ih =>
+    obtain ⟨ak, av⟩ := a
+    by_cases h1 : ak = k'
+    · subst h1
+      simp [alSet, alGet, h]
+    · by_cases h2 : ak = k
+      · subst h2
+        simp [alSet, alGet, h1]
+      · simp [alSet, alGet, h1, h2, ih]
+
+theorem alGet_alDel_ne {β} (k k' : Nat) (l : List (Nat × β)) (h : k' ≠ k) :
+    alGet k (alDel k' l) = alGet k l := by
+  induction l with
+  | nil => simp [alDel, alGet]
+  | cons a rest ih =>
+    obtain ⟨ak, av⟩ := a
+    by_cases h1 : ak = k'
+    · subst h1
+      simp [alDel, alGet, h, ih]
+    · by_cases h2 : ak = k
+      · subst h2
+        simp [alDel, alGet, h1]
+      · simp [alDel, alGet, h1, h2, ih]
+
+theorem alDel_of_absent {β} (k : Nat) (l : List (Nat × β)) (h : alGet k l = none) : alDel k l = l := by
+  induction l with
+  | nil => simp [alDel]
+  | cons a rest ih =>
+    obtain ⟨ak, av⟩ := a
+    by_cases h1 : ak = k
+    · simp [alGet, h1] at h
+    · simp only [alGet, h1, if_false] at h
+      simp [alDel, h1, ih h]
+
+theorem alDel_alSet_fresh {β} (k : Nat) (v : β) (l : List (Nat × β)) (h : alGet k l = none) :
+    alDel k (alSet k v l) = l := by
+  induction l with
+  | nil => simp [alSet, alDel]
+  | cons a rest ih =>
+    obtain ⟨ak, av⟩ := a
+    by_cases h1 : ak = k
+    · simp [alGet, h1] at h
+    · simp only [alGet, h1, if_false] at h
+      simp [alSet, alDel, h1, ih h]
+
+theorem alHas_alDel_ne {β} (k k' : Nat) (l : List (Nat × β)) (h : k' ≠ k) :
+    alHas k (alDel k' l) = alHas k l := by
+  simp [alHas, alGet_alDel_ne _ _ _ h]
+
 end Djc.Proofs.Render
